@@ -173,6 +173,9 @@ def ubx_unknown(rng, serial=None):
         if (cls, mid) not in known:
             break
     n = rng.choice((0, 1, 2, 4, 8, 17, 40))
+    if rng.random() < 0.15:
+        # lengths on and around the byte boundary of the 16-bit length field / 256-byte blocks
+        n = rng.choice((251, 252, 253, 254, 255, 256, 257, 508, 511, 512, 513, 1020, 1024))
     pl = bytearray(payload_bytes(rng, n, rng.choice(PAYLOAD_STYLES)))
     if serial is not None and n >= 4:
         pl[-2:] = (serial & 0xFFFF).to_bytes(2, "little")
@@ -181,7 +184,7 @@ def ubx_unknown(rng, serial=None):
 
 def ubx_any(rng, variant_fault=False, serial=None, modes=None):
     """Any UBX frame: mostly catalogue entries (optionally restricted to modes), some unknown."""
-    if rng.random() < 0.06:
+    if rng.random() < 0.09:
         return ubx_unknown(rng, serial)
     cat = catalogue()
     for _ in range(20):
@@ -361,6 +364,9 @@ def rtcm_any(rng, serial=None, allow_empty=True):
         return wire.rtcm_frame(b""), "rtcm empty"
     t = rng.choice(_RTCM_TYPES)
     n = rng.choice((1, 2, 3, 5, 8, 13, 19, 21, 30, 60, 120, 300))
+    if rng.random() < 0.12:
+        # sizes on and around the byte boundaries of the 10-bit length field
+        n = rng.choice((254, 255, 256, 257, 258, 511, 512, 513, 767, 768, 769, 1022, 1023))
     body = bytearray(rng.getrandbits(8) for _ in range(n))
     if n >= 2:
         body[0] = (t >> 4) & 0xFF
@@ -450,3 +456,37 @@ def frame_any(rng, serial=None, mix=None, variant_fault=False, modes=None):
         return "nmea", b, note
     b, note = rtcm_any(rng, serial)
     return "rtcm", b, note
+
+
+def long_run(rng, n=None):
+    """
+    A long homogeneous stretch of stream (>= 1000 tiny frames or several thousand noise bytes):
+    what a reader meets when a whole protocol it filters out is streaming, or a link is idle/noisy.
+    Returns (list of (kind, bytes, note)).
+    """
+    n = n or rng.choice((1100, 1600, 2600))
+    style = rng.choice(("nmea", "ubx", "rtcm", "alternate", "bad_ubx", "bad_nmea", "unknown_hdr", "noise", "rtcm_bad"))
+    tiny = {
+        "nmea": ("nmea", b"$GPQQQ*46\r\n"),
+        "ubx": ("ubx", wire.ubx_frame(0x05, 0x01, b"\x06\x01")),
+        "rtcm": ("rtcm", wire.rtcm_frame(bytes.fromhex("3ed00003"))),
+        "bad_ubx": ("ubx", wire.ubx_frame(0x05, 0x01, b"\x06\x01")[:-1] + b"\x00"),
+        "bad_nmea": ("nmea", b"$GPQQQ*00\r\n"),
+        "rtcm_bad": ("rtcm", wire.rtcm_frame(b"")),
+    }
+    out = []
+    if style in tiny:
+        k, b = tiny[style]
+        out = [(k, b, f"long run {style}")] * n
+    elif style == "alternate":
+        a, b = rng.sample(sorted(tiny), 2)
+        for i in range(n):
+            k, fb = tiny[a if i % 2 == 0 else b]
+            out.append((k, fb, f"long run {a}/{b}"))
+    elif style == "unknown_hdr":
+        out = [("garbage", bytes((rng.choice((0xB5, 0x24, 0xD3)), rng.choice((0x00, 0xFF, 0x7F)))), "unknown header pair")] * n
+    else:
+        out = [("garbage", bytes(rng.choice(NOISE_ALPHABET_SAFE) for _ in range(4 * n)), "noise run")]
+    tail = rng.choice(("nmea", "ubx", "rtcm"))
+    out.append((tiny[tail][0], tiny[tail][1], "tail frame"))
+    return out, style
